@@ -7,6 +7,7 @@ decidable `Layout.conformant`, `SULW.conformant` (Spec.lean).
 -/
 import TD.C01.Lemmas
 import TD.C01.Wf
+import TD.C01.ObjLemmas
 
 namespace TD.C01
 
@@ -69,6 +70,27 @@ theorem iter_encode_empty (sul : SULW) (hs : sul.conformant = true) :
   rw [e, List.take_of_length_le (by omega), sulParse_enc sul hs]
   simp only [readVR_nil _ 80 hd]
 
+/-! ### the reader OBJECT through histories of its generator methods -/
+
+/-- **Every method of a reader object answers as a function of the file bytes alone.**  For every file, every history
+of `iter_logical_records` / `iter_visible_records` / `iter_LRSHs_for_visible_record` calls on ONE `FileRead`, each
+consumed completely or abandoned after any number of items, interleaved with any other method (`other`: random-access
+fetches, position scans, validation, exit and re-enter — whatever they leave in the reader), and whatever an
+(abandoned) generator leaves in the cursor / visible record / segment header objects (`kf`): the k-th result is the
+result of that call on a fresh reader. -/
+theorem reader_history_pure (kf : Bytes → RSt → ROp → RSt) (b : Bytes) (st : RSt) (ops : List ROp) :
+    runR kf b st ops = ops.map (outR b default) :=
+  runR_pure kf b ops st
+
+/-- **After any history a full sequential read yields exactly the records written**: on a conformant file the n-th
+result of ANY history whose n-th operation is a complete `iter_logical_records()` is the list of records written. -/
+theorem reader_recs_encode (kf : Bytes → RSt → ROp → RSt) (sul : SULW) (recs : List LR) (ℓ : Layout)
+    (hs : sul.conformant = true) (hne : recs ≠ []) (hc : ℓ.conformant recs = true) (st : RSt) (ops : List ROp) (n : Nat)
+    (hn : ops[n]? = some (.recs none)) :
+    (runR kf (encode sul recs ℓ) st ops)[n]? = some (.recs recs none) := by
+  rw [reader_history_pure, List.getElem?_map, hn]
+  simp [outR, truncate, recsR_encode sul recs ℓ hs hne hc]
+
 /-! ### the hypotheses are satisfiable — padding + checksum + trailing length + encryption, 3 visible records -/
 
 def exSul : SULW := ⟨10, [32, 32], [86, 49, 46, 48, 48], 8192, [48], List.replicate 60 65⟩
@@ -98,5 +120,16 @@ example : (encode exSul exRecs exLayout).length = 80 + 40 + 36 + 36 := by decide
 /-- a non-conformant layout is recognised as such (visible record length does not match its segments) -/
 example : (Layout.mk [[⟨3, 9, 0, none, false, false, false, some 22⟩]]).conformant [⟨false, 5, [1, 2, 3]⟩] = false := by
   decide
+
+/-- visible records walked past the first one, an abandoned sequential read, another method, then a full read:
+evaluated by the kernel on the stateful model of the example file -/
+example : (runR (fun _ _ _ => ⟨150, ⟨120, 36⟩, ⟨160, 16, 1, 127⟩⟩) (encode exSul exRecs exLayout) default
+      [.vrs none, .recs (some 2), .lrshs 120 36 none, .other ⟨7, ⟨156, 36⟩, ⟨176, 16, 0, 3⟩⟩, .recs none]).map
+      (fun o => match o with
+        | .recs l e => (l.length, e.isSome)
+        | .vrs l e => (l.length, e.isSome)
+        | .lrshs l e => (l.length, e.isSome)
+        | .none => (0, false))
+    = [(3, false), (2, false), (2, false), (0, false), (4, false)] := by decide +kernel
 
 end TD.C01
